@@ -1,6 +1,8 @@
 package num
 
 import (
+	"math"
+
 	"github.com/invopop/jsonschema"
 )
 
@@ -123,8 +125,14 @@ func (p Percentage) Of(a Amount) Amount {
 // From calculates what "percent from" the provided amount would result
 // assuming the rate has already been applied.
 func (p Percentage) From(a Amount) Amount {
-	x := a.Divide(p.Factor())
-	return a.Subtract(x)
+	// a - a/(1+p) == a*p/(1+p): round the result once, instead of rounding
+	// the division and subtracting, which rounds exact halves towards zero.
+	f := p.Factor()
+	v := (float64(a.value) * float64(p.amount.value)) / float64(f.value)
+	return Amount{
+		value: int64(math.Round(v)),
+		exp:   a.exp,
+	}
 }
 
 // Factor returns the percentage amount as a factor, essentially
